@@ -248,7 +248,7 @@ def gen_step(rng, info, doc, docs, malformed=False):
         sl = random_slice(rng, docs)
         return ReplaceStep(f, t, sl, rng.random() < 0.15)
     if kind == "around":
-        return gen_around(rng, info, doc, f, t)
+        return gen_around(rng, info, doc, f, t, docs)
     if kind in ("addMark", "removeMark"):
         m = gen_mark(rng, schema)
         if m is None:
@@ -259,6 +259,24 @@ def gen_step(rng, info, doc, docs, malformed=False):
         if m is None:
             return ReplaceStep(f, t, Slice.empty)
         pos = node_pos(rng, doc)
+        if rng.random() < 0.6:
+            # aimed: a node that carries marks, and a mark that displaces / equals one of them
+            best = None
+            for _ in range(12):
+                p2, m2 = node_pos(rng, doc), gen_mark(rng, schema)
+                n2 = safe_node_at(doc, p2)
+                if n2 is None or not n2.marks:
+                    continue
+                if rng.random() < 0.3:
+                    m2 = rng.choice(n2.marks)
+                new = m2.add_to_set(n2.marks)
+                gone = [x for x in n2.marks if not x.is_in_set(new)]
+                # prefer exactly one displaced mark of another type that excludes the new one in return
+                score = 0 if len(gone) != 1 else (2 if gone[0].type is not m2.type and gone[0].type.excludes(m2.type) else 1)
+                if best is None or score > best[2]:
+                    best = (p2, m2, score)
+            if best is not None:
+                pos, m = best[0], best[1]
         return AddNodeMarkStep(pos, m) if kind == "addNodeMark" else RemoveNodeMarkStep(pos, m)
     if kind == "attr":
         pos = node_pos(rng, doc)
@@ -317,12 +335,28 @@ def wrappable_ranges(doc):
     return out
 
 
-def gen_around(rng, info, doc, f, t):
+def frag_boundaries(fragment):
+    """positions in a fragment that are not inside text (between children, at content starts / ends)"""
+    out = []
+
+    def walk(frag, start):
+        pos = start
+        out.append(pos)
+        for c in frag.content:
+            if not c.is_text and not c.is_leaf:
+                walk(c.content, pos + 1)
+            pos += c.node_size
+            out.append(pos)
+    walk(fragment, 0)
+    return sorted(set(out))
+
+
+def gen_around(rng, info, doc, f, t, docs=None):
     """replace-around steps: wraps, unwraps (lifts), retypes; plausible-but-wrong variants included"""
     schema = info.schema
     r = rng.random()
     ranges = wrappable_ranges(doc)
-    if ranges and r < 0.45:
+    if ranges and r < 0.40:
         # wrap a sibling run in a random non-leaf type
         s, e, _ = rng.choice(ranges)
         types = [t_ for t_ in schema.nodes.values() if not t_.is_leaf and not t_.is_text]
@@ -336,14 +370,22 @@ def gen_around(rng, info, doc, f, t):
             w2 = rng.choice(outer_ok)
             wn = Node(w2, ga(rng, w2), Fragment.from_(wn), [])
             return ReplaceAroundStep(s, e, s, e, Slice(Fragment.from_(wn), 0, 0), 2, rng.random() < 0.8)
-        return ReplaceAroundStep(s, e, s, e, Slice(Fragment.from_(wn), 0, 0), 1, rng.random() < 0.8)
-    if ranges and r < 0.75:
+        gs, ge = s, e
+        if rng.random() < 0.12:
+            # plausible but wrong: the gap is cut at a different depth on one side (not a flat range)
+            k = rng.choice([1, 1, 2])
+            if rng.random() < 0.5:
+                ge = max(gs, e - k)
+            else:
+                gs = min(ge, s + k)
+        return ReplaceAroundStep(s, e, gs, ge, Slice(Fragment.from_(wn), 0, 0), 1, rng.random() < 0.8)
+    if ranges and r < 0.62:
         # unwrap: drop the open/close token around a sibling run that fills its parent
         cands = [(s, e, d) for (s, e, d) in ranges if d >= 1]
         if cands:
             s, e, _ = rng.choice(cands)
             return ReplaceAroundStep(max(0, s - 1), min(doc.content.size, e + 1), s, e, Slice.empty, 0, rng.random() < 0.8)
-    if ranges and r < 0.9:
+    if ranges and r < 0.76:
         # retype a node: replace its open/close tokens (set_node_markup shape)
         starts = [p for p in node_starts(doc)]
         rng.shuffle(starts)
@@ -355,7 +397,37 @@ def gen_around(rng, info, doc, f, t):
                 wn = Node(w, gen_attrs(rng, w), Fragment.empty, n.marks if rng.random() < 0.5 else [])
                 return ReplaceAroundStep(p, p + n.node_size, p + 1, p + n.node_size - 1,
                                          Slice(Fragment.from_(wn), 0, 0), 1, True)
-    if r < 0.94:
+    if ranges and r < 0.84:
+        # wrap a sibling run in a closed node X while also re-creating the open token of the following sibling
+        # (slice [X, N'] open at the end) or the close token of the preceding one (slice [P', X] open at the start):
+        # the gap lands in a *closed, non-last / non-first* child of a slice that is open on that side
+        types = [t_ for t_ in schema.nodes.values() if not t_.is_leaf and not t_.is_text]
+        rng.shuffle(ranges)
+        for s, e, _ in ranges[:12]:
+            nxt, prv = safe_node_at(doc, e), None
+            try:
+                prv = doc.resolve(s).node_before
+            except Exception:  # noqa: BLE001
+                prv = None
+            w = rng.choice(types)
+            wn = Node(w, gen_attrs(rng, w), Fragment.empty, [])
+            if nxt is not None and not nxt.is_leaf and not nxt.is_text and rng.random() < 0.6:
+                nn = Node(nxt.type, nxt.attrs, Fragment.empty, nxt.marks)
+                return ReplaceAroundStep(s, e + 1, s, e, Slice(Fragment.from_([wn, nn]), 0, 1), 1, rng.random() < 0.7)
+            if prv is not None and not prv.is_leaf and not prv.is_text:
+                pn = Node(prv.type, prv.attrs, Fragment.empty, prv.marks)
+                return ReplaceAroundStep(s - 1, e, s, e, Slice(Fragment.from_([pn, wn]), 1, 0), pn.node_size, rng.random() < 0.7)
+    if ranges and r < 0.92:
+        # a sibling run dropped at an arbitrary position inside an arbitrary (multi-child, possibly open) slice
+        s, e, _ = rng.choice(ranges)
+        sl = random_slice(rng, docs) if docs else Slice.empty
+        # `insert` counts from the slice's open start and must lie within its size
+        bounds = [b - sl.open_start for b in frag_boundaries(sl.content) if sl.open_start <= b <= sl.content.size - sl.open_end]
+        ins = rng.choice(bounds) if bounds and rng.random() < 0.85 else rng.randint(0, sl.size)
+        lo = rng.choice([0, 0, 1, 2]) if sl.open_start == 0 else sl.open_start
+        hi = rng.choice([0, 0, 1, 2]) if sl.open_end == 0 else sl.open_end
+        return ReplaceAroundStep(max(0, s - lo), min(doc.content.size, e + hi), s, e, sl, ins, rng.random() < 0.6)
+    if r < 0.95:
         # an empty gap at the very end of the range with part of the slice after it (a wrapper around nothing)
         types = [t_ for t_ in schema.nodes.values() if not t_.is_leaf and not t_.is_text]
         w = rng.choice(types)
